@@ -29,13 +29,19 @@ func init() {
 		Run: func(w *mc.W, u int) {
 			unit := genUnits(w.Tier)[u]
 			st := &c11State{}
+			var hist byteHist
 			unit.Each(func(b []byte) bool {
+				hist.begin(w, b, unit.Name)
 				c11Check(w, st, b, unit.Name)
+				hist.end(histOK)
 				return !w.Expired()
 			})
 		},
-		Replay: bytesReplay(func(w *mc.W, b []byte, unit string) { c11Check(w, &c11State{}, b, unit) }),
-		Post:   postDistinct(100),
+		Replay: bytesReplay(func() func(w *mc.W, b []byte, unit string) {
+			st := &c11State{}
+			return func(w *mc.W, b []byte, unit string) { c11Check(w, st, b, unit) }
+		}),
+		Post: postDistinct(100),
 	})
 }
 
@@ -148,6 +154,7 @@ func c11Check(w *mc.W, st *c11State, b []byte, unit string) {
 		fail("panic:decode:"+panicKey(stack), fmt.Sprintf("Decode panicked: %v", pnc))
 		return
 	}
+	histOK = derr == nil
 	var text []byte
 	var serr error
 	if pnc, stack := guard(func() { text, serr = decode.Disassemble(b) }); pnc != nil {
